@@ -28,7 +28,7 @@ def obligations(tier):
                       bounds='string <= %d bytes, %s' % (n, 'adversarial alphabet' if alpha else 'all byte values')))
     for mode, nm in ((1, 'decode'), (0, 'validate')):
         for n, t, to in ((4, 'quick', 900), (5, 'thorough', 1800)):
-            obs.append(Ob('utf8.%s.N%d' % (nm, n), 'C12/utf8.c', units=U, models=MODELS, remove=RM, defines={'N': n, 'MODE': mode}, unwind=n + 3, unwindset=['m_bestfit.0:6', 'bestfit_codepoint.0:6', 'htp_utf8_decode_path_inplace.0:%d' % (2 * n + 2)], tier=t, timeout=to, mem_gb=10,
+            obs.append(Ob('utf8.%s.N%d' % (nm, n), 'C12/utf8.c', units=U, models=MODELS, remove=RM, defines={'N': n, 'MODE': mode}, unwind=n + 3, unwindset=['m_bestfit.0:6', 'bestfit_codepoint.0:6', 'htp_utf8_decode_path_inplace.0:%d' % (2 * n + 2), 'memcmp.0:2000', 'harness.0:20', 'harness.1:20', 'harness.2:20', 'harness.3:20'], tier=t, timeout=to, mem_gb=10,
                           kfs=(['C12-validate-halffull-range'] if mode == 0 else []),
                           statement='UTF-8 %s of the path == reference decoder: bytes, VALID/INVALID/OVERLONG/HALF_FULL flags' % nm, bounds='path <= %d bytes, all byte values' % n))
     for w in range(18):
